@@ -231,5 +231,253 @@ theorem glob_star (s : List Char) : globMatch ['*'] s = true := by
 example : recFileGather [⟨[['r']], 1, .dir, 0⟩, ⟨[['r'], ['d']], 2, .dir, 0⟩, ⟨[['r'], ['d'], ['.', 'h']], 3, .file, 1⟩,
       ⟨[['r'], ['d'], ['f']], 4, .file, 2⟩] [['r']] false = [⟨[['r']], ⟨false, [['d'], ['f']]⟩⟩] := by decide
 
+/-! ### the traversal computes the selection -/
+
+theorem getLast_snoc_path {p root : APath} {n : Name} (h : p = root ++ [n]) : p.getLast? = some n ∧ p.dropLast = root ∧ p ≠ [] := by
+  subst h; simp
+
+/-- **traversal = specification**: on a well-formed tree, listing directories recursively the way
+    `_gather_in` does — skipping hidden names, descending into directories — yields exactly the entries of the
+    wanted kind that lie below the start directory within the depth bound and have no hidden component on
+    the way (unless hidden entries are included) -/
+theorem gatherIn_spec (fs : FS) (hw : WF fs) (hidden dirs : Bool) :
+    ∀ (fuel : Nat) (root : APath) (p : APath),
+      p ∈ gatherIn fs hidden dirs fuel root ↔
+        ∃ e ∈ fs, e.path = p ∧ (e.kind = .dir ↔ dirs = true) ∧
+          ∃ rel, rel ≠ [] ∧ p = root ++ rel ∧ rel.length ≤ fuel ∧ (hidden = true ∨ ∀ n ∈ rel, isHiddenName n = false) := by
+  obtain ⟨hn, hc⟩ := hw
+  intro fuel
+  induction fuel with
+  | zero =>
+    intro root p
+    simp only [gatherIn, List.not_mem_nil, false_iff]
+    rintro ⟨e, _, _, _, rel, hne, _, hl, _⟩
+    exact hne (List.length_eq_zero_iff.mp (Nat.le_zero.mp hl))
+  | succ fuel ih =>
+    intro root p
+    rw [gatherIn, List.mem_flatMap]
+    constructor
+    · rintro ⟨c, hcm, hp⟩
+      have hcf : c ∈ fs ∧ c.path ≠ [] ∧ c.path.dropLast = root := by
+        simpa [iterdir, List.mem_filter] using hcm
+      obtain ⟨hcfs, hc0, hcpar⟩ := hcf
+      obtain ⟨n, hlast⟩ : ∃ n, c.path.getLast? = some n := by
+        cases h : c.path.getLast? with
+        | none => exact absurd (List.getLast?_eq_none_iff.mp h) hc0
+        | some n => exact ⟨n, rfl⟩
+      have hcp : c.path = root ++ [n] := by
+        have h1 := List.dropLast_concat_getLast hc0
+        have h2 : c.path.getLast hc0 = n := by
+          have := List.getLast?_eq_some_getLast hc0
+          rw [hlast] at this
+          exact (Option.some.inj this).symm
+        rw [hcpar, h2] at h1; exact h1.symm
+      simp only [hlast] at hp
+      split at hp
+      · simp at hp
+      · rename_i hhid
+        have hvis : hidden = true ∨ isHiddenName n = false := by
+          cases hidden <;> simp_all
+        split at hp
+        · rename_i hk
+          rw [List.mem_append] at hp
+          rcases hp with hp | hp
+          · -- the directory itself (directory mode)
+            split at hp
+            · rename_i hd
+              simp only [List.mem_singleton] at hp
+              subst hp
+              exact ⟨c, hcfs, rfl, ⟨fun _ => hd, fun _ => hk⟩, [n], by simp, hcp, by simp, by
+                rcases hvis with h | h
+                · exact Or.inl h
+                · right; intro m hm; simp at hm; rw [hm]; exact h⟩
+            · simp at hp
+          · -- below it
+            obtain ⟨e, he, hep, hek, rel, hrne, hprel, hlen, hh⟩ := (ih c.path p).mp hp
+            refine ⟨e, he, hep, hek, n :: rel, by simp, ?_, by simp; omega, ?_⟩
+            · rw [hprel, hcp]; simp
+            · rcases hvis with h | h
+              · exact Or.inl h
+              · rcases hh with hh | hh
+                · exact Or.inl hh
+                · right; intro m hm
+                  rw [List.mem_cons] at hm
+                  rcases hm with hm | hm
+                  · rw [hm]; exact h
+                  · exact hh m hm
+        · rename_i hk
+          split at hp
+          · simp at hp
+          · rename_i hd
+            simp only [List.mem_singleton] at hp
+            subst hp
+            exact ⟨c, hcfs, rfl, ⟨fun h => absurd h hk, fun h => absurd h hd⟩, [n], by simp, hcp, by simp, by
+              rcases hvis with h | h
+              · exact Or.inl h
+              · right; intro m hm; simp at hm; rw [hm]; exact h⟩
+    · rintro ⟨e, he, hep, hek, rel, hrne, hprel, hlen, hh⟩
+      match rel, hrne with
+      | n :: rel', _ =>
+        have hnvis : (!hidden && isHiddenName n) = false := by
+          rcases hh with h | h
+          · simp [h]
+          · simp [h n (by simp)]
+        by_cases hr' : rel' = []
+        · -- the entry is a child of the start directory
+          subst hr'
+          have hpath : e.path = root ++ [n] := by rw [hep, hprel]
+          obtain ⟨hl, hd, h0⟩ := getLast_snoc_path hpath
+          refine ⟨e, by simpa [iterdir, List.mem_filter] using ⟨he, h0, hd⟩, ?_⟩
+          simp only [hl, hnvis, Bool.false_eq_true, if_false]
+          by_cases hk : e.kind = .dir
+          · have hd' : dirs = true := hek.mp hk
+            simp [hk, hd', hep]
+          · have hd' : ¬ dirs = true := fun h => hk (hek.mpr h)
+            simp [hk, hd', hep]
+        · -- the entry lies deeper: the child on the way is a directory entry
+          have hanc : (root ++ [n]) <+: e.path := by
+            rw [hep, hprel]; exact ⟨rel', by simp⟩
+          have hne : root ++ [n] ≠ e.path := by
+            rw [hep, hprel]
+            intro h
+            have := congrArg List.length h
+            simp at this
+            exact hr' this
+          obtain ⟨d, hdm, hdp, hdk⟩ := ancestor_is_dir hc he hanc hne (by simp)
+          obtain ⟨hl, hd, h0⟩ := getLast_snoc_path hdp
+          refine ⟨d, by simpa [iterdir, List.mem_filter] using ⟨hdm, h0, hd⟩, ?_⟩
+          simp only [hl, hnvis, Bool.false_eq_true, if_false, hdk, if_true]
+          rw [List.mem_append]
+          right
+          apply (ih d.path p).mpr
+          refine ⟨e, he, hep, hek, rel', hr', ?_, by simp at hlen; omega, ?_⟩
+          · rw [hprel, hdp]; simp
+          · rcases hh with h | h
+            · exact Or.inl h
+            · exact Or.inr (fun m hm => h m (List.mem_cons_of_mem _ hm))
+
+/-- hence the recursive file gatherer's selection is what the traversal finds (any sufficient depth bound) -/
+theorem traversal_eq_recFileGather (fs : FS) (hw : WF fs) (root : APath) (hidden : Bool) (fuel : Nat)
+    (hfuel : ∀ e ∈ fs, e.path.length ≤ root.length + fuel) (x : FileRec) :
+    x ∈ recFileGather fs root hidden ↔
+      ∃ p ∈ gatherIn fs hidden false fuel root, x = ⟨root, ⟨false, p.drop root.length⟩⟩ := by
+  rw [mem_recFileGather]
+  constructor
+  · rintro ⟨e, he, rel, hrne, hp, hk, hh, rfl⟩
+    refine ⟨e.path, (gatherIn_spec fs hw hidden false fuel root e.path).mpr
+      ⟨e, he, rfl, ⟨fun h => absurd h hk, fun h => by simp at h⟩, rel, hrne, hp, ?_, hh⟩, by rw [hp]; simp⟩
+    have := hfuel e he
+    rw [hp] at this
+    simp at this
+    omega
+  · rintro ⟨p, hp, rfl⟩
+    obtain ⟨e, he, hep, hek, rel, hrne, hprel, _, hh⟩ := (gatherIn_spec fs hw hidden false fuel root p).mp hp
+    refine ⟨e, he, rel, hrne, by rw [hep, hprel], fun h => by simpa using hek.mp h, hh, by rw [hprel]; simp⟩
+
+/-- … and likewise for the directory gatherer of directory mode -/
+theorem traversal_eq_recDirGather (fs : FS) (hw : WF fs) (root : APath) (hidden : Bool) (fuel : Nat)
+    (hfuel : ∀ e ∈ fs, e.path.length ≤ root.length + fuel) (x : FileRec) :
+    x ∈ recDirGather fs root hidden ↔
+      ∃ p ∈ gatherIn fs hidden true fuel root, x = ⟨root, ⟨false, p.drop root.length⟩⟩ := by
+  rw [mem_recDirGather]
+  constructor
+  · rintro ⟨e, he, rel, hrne, hp, hk, hh, rfl⟩
+    refine ⟨e.path, (gatherIn_spec fs hw hidden true fuel root e.path).mpr
+      ⟨e, he, rfl, ⟨fun _ => rfl, fun _ => hk⟩, rel, hrne, hp, ?_, hh⟩, by rw [hp]; simp⟩
+    have := hfuel e he
+    rw [hp] at this
+    simp at this
+    omega
+  · rintro ⟨p, hp, rfl⟩
+    obtain ⟨e, he, hep, hek, rel, hrne, hprel, _, hh⟩ := (gatherIn_spec fs hw hidden true fuel root p).mp hp
+    exact ⟨e, he, rel, hrne, by rw [hep, hprel], hek.mpr rfl, hh, by rw [hprel]; simp⟩
+
+/-- what one child of the listed directory contributes starts with that child's path -/
+theorem gatherIn_child_prefix (fs : FS) (hw : WF fs) (hidden dirs : Bool) (fuel : Nat) (c : APath) (p : APath)
+    (h : p ∈ gatherIn fs hidden dirs fuel c) : c <+: p ∧ p ≠ c := by
+  obtain ⟨e, _, _, _, rel, hrne, hprel, _, _⟩ := (gatherIn_spec fs hw hidden dirs fuel c p).mp h
+  refine ⟨⟨rel, hprel.symm⟩, ?_⟩
+  intro heq
+  rw [hprel] at heq
+  have := congrArg List.length heq
+  simp at this
+  exact hrne this
+
+/-- **the traversal yields every entry once** -/
+theorem gatherIn_nodup (fs : FS) (hw : WF fs) (hidden dirs : Bool) :
+    ∀ (fuel : Nat) (root : APath), (gatherIn fs hidden dirs fuel root).Nodup := by
+  intro fuel
+  induction fuel with
+  | zero => intro root; simp [gatherIn]
+  | succ fuel ih =>
+    intro root
+    rw [gatherIn, List.nodup_iff_pairwise_ne, List.pairwise_flatMap]
+    have hpre : ∀ c ∈ iterdir fs root, ∀ x : APath, x ∈ (match c.path.getLast? with
+        | none => []
+        | some n =>
+          if (!hidden && isHiddenName n) = true then []
+          else if c.kind = Kind.dir then (if dirs = true then [c.path] else []) ++ gatherIn fs hidden dirs fuel c.path
+          else (if dirs = true then [] else [c.path])) → c.path <+: x := by
+      intro c _ x hx
+      split at hx
+      · simp at hx
+      · split at hx
+        · simp at hx
+        · split at hx
+          · rw [List.mem_append] at hx
+            rcases hx with hx | hx
+            · split at hx
+              · simp at hx; rw [hx]; exact List.prefix_refl _
+              · simp at hx
+            · exact (gatherIn_child_prefix fs hw hidden dirs fuel c.path x hx).1
+          · split at hx
+            · simp at hx
+            · simp at hx; rw [hx]; exact List.prefix_refl _
+    constructor
+    · intro c _
+      split
+      · exact List.Pairwise.nil
+      · split
+        · exact List.Pairwise.nil
+        · split
+          · rw [← List.nodup_iff_pairwise_ne, List.nodup_append]
+            refine ⟨by split <;> simp, ih c.path, ?_⟩
+            intro a ha b hb
+            split at ha
+            · simp at ha
+              rw [ha]
+              exact fun h => (gatherIn_child_prefix fs hw hidden dirs fuel c.path b hb).2 h.symm
+            · simp at ha
+          · split <;> simp
+    · have hbase : List.Pairwise (fun a b : Entry => a.path ≠ b.path) fs := by
+        have := hw.1
+        unfold pathsNodup at this
+        rw [List.nodup_iff_pairwise_ne, List.pairwise_map] at this
+        exact this
+      have hit : List.Pairwise (fun a b : Entry => a.path ≠ b.path) (iterdir fs root) := hbase.filter _
+      refine hit.imp_of_mem ?_
+      intro a b ha hb hne x hx y hy hxy
+      subst hxy
+      have hpa := hpre a ha x hx
+      have hpb := hpre b hb x hy
+      have hla : a.path ≠ [] ∧ a.path.dropLast = root := by
+        have : a ∈ fs ∧ a.path ≠ [] ∧ a.path.dropLast = root := by simpa [iterdir, List.mem_filter] using ha
+        exact this.2
+      have hlb : b.path ≠ [] ∧ b.path.dropLast = root := by
+        have : b ∈ fs ∧ b.path ≠ [] ∧ b.path.dropLast = root := by simpa [iterdir, List.mem_filter] using hb
+        exact this.2
+      have hlen : a.path.length = b.path.length := by
+        have h1 := congrArg List.length hla.2
+        have h2 := congrArg List.length hlb.2
+        simp at h1 h2
+        have : a.path.length ≠ 0 := fun h => hla.1 (List.length_eq_zero_iff.mp h)
+        have : b.path.length ≠ 0 := fun h => hlb.1 (List.length_eq_zero_iff.mp h)
+        omega
+      apply hne
+      obtain ⟨ta, hta⟩ := hpa
+      obtain ⟨tb, htb⟩ := hpb
+      have := hta.trans htb.symm
+      exact List.append_inj_left this hlen
+
 end C07
 end Tempren
